@@ -131,17 +131,22 @@ CHECKS.update({
                 design="6/C06", note=BENCH_NOTE),
     "C14": dict(engine="bench", spec="Bench.tla (OpStart/Push/HE/OpDone for queries: one reply per accepted replier, in "
                                      "connection order), PortClones.tla (SharedLinks), TaskSet.tla (WellFormed, NoLostTask, "
-                                     "NoLostNotify), SlotRA.tla (Safe, ValueOnce, NoLeak)",
+                                     "NoLostNotify), CachedRwLock.tla + CachedRwLock_Trace.tla (SeesCompletedConnects, NothingInvented, "
+                                     "CacheCoherent), SlotRA.tla (Safe, ValueOnce, NoLeak)",
                 text="TLC explores every completion order of 0..6 repliers with filtered subsets; on the real crate the "
                      "reply vector returned by Requestor::send (each reply encodes the replier, the mapped request and "
                      "the connection's reply map) must equal the specification's under every enumerated schedule and "
-                     "free multi-threaded runs. Beyond the anchors: the one-shot slot that carries the replies of "
+                     "free multi-threaded runs. Clones under concurrency: CachedRwLock.tla at lock/epoch granularity with "
+                     "the structure (epoch bumped under the lock, refresh under the lock) extracted from the source, all "
+                     "interleavings of connect/send on 2-3 clones; real threads owning one clone each connect sinks and "
+                     "send in simultaneous rounds and every recorded execution is validated against "
+                     "CachedRwLock_Trace.tla. Beyond the anchors: the one-shot slot that carries the replies of "
                      "driver-side queries (util/slot.rs) is decided on SlotRA.tla, a release/acquire model instantiated "
                      "with the orderings read from the source (data races on the value, racy or double deallocation, "
                      "use after free, leaks).",
                 design="6/C14", note=BENCH_NOTE + " Port-clone sharing is PortClones.tla (sequential histories); TaskSet.tla "
                                                   "is model-checked at atomic level and bound by sequential replay; "
-                                                  "CachedRwLock is not specified at atomic level."),
+                                                  "CachedRwLock.tla has interleaving semantics (its epoch accesses are Relaxed in the code)."),
     "C16": dict(engine="bench", spec="Bench.tla (InitOnceFirst; qualified names in handler contexts and reports)",
                 text="TLC explores every schedule of SimInit::init on hierarchies of depth <= 3 whose init scripts send "
                      "events and queries to models that are not initialised yet; on the real crate init must run once "
@@ -281,6 +286,11 @@ def main():
                                       "/verif/harness/src/taskset.rs",
                  serves_properties=["C14"],
                  kind_free_text="TLC interleaving exploration at atomic-step granularity + replay of every sequential history"),
+            dict(name="crw", path="/verif/specs/CachedRwLock.tla /verif/specs/CachedRwLock_Trace.tla /verif/tools/crwdefs.py "
+                                  "/verif/harness/src/clones.rs",
+                 serves_properties=["C14"],
+                 kind_free_text="TLC interleaving exploration with structure extracted from the source + trace validation of "
+                                "real threads"),
             dict(name="slot_ra", path="/verif/specs/SlotRA.tla /verif/tools/slotdefs.py /verif/tools/orderings.py",
                  serves_properties=["C14"],
                  kind_free_text="TLC on a weak-memory model with orderings extracted from the source"),
